@@ -12,7 +12,7 @@ import (
 var strPool = []string{"x", "hello", "", "a/b", "t~1", "ü", "日本", "\u0000z", "q\"uote", "sp ace", "😀", "line\nbreak", "$set", "a.b",
 	// text that looks like an escape sequence of some layer it travels through (JSON / HTML-safe JSON / BSON / regex)
 	"<b>&amp;</b>", "C:\\u0026me", "\\u003cscript\\u003e", "back\\slash", "\\", "\u2028x", "%s %d", "\\n"}
-var docKeys = []string{"a", "b", "c", "k1", "k2", "arr", "obj", "x/y", "t~0", "ü", "p~1q", "~01", "a~0~1b/", "\\u003e", "<k>&"}
+var docKeys = []string{"a", "b", "c", "k1", "k2", "arr", "obj", "x/y", "t~0", "ü", "p~1q", "~01", "a~0~1b/", "\\u003e", "<k>&", ""}
 
 func GenPrim(g *kernel.Rng) interface{} {
 	switch g.Intn(10) {
